@@ -19,6 +19,16 @@ ZSTD_decompressDCtx (harness/zvh_dec.c `dec`) with exactly len(x) bytes of room,
 (3) spreadOK / spreadEncEqDec are true; (4) the fixed cases get the literals sections they were built for (`lit=`), and the run as a
 whole does write treeless sections.
 
+Dictionaries (`run_dict`, also run by tools/props/c08.py): op `cframed <windowLog> <checksum> <blocks spec> <hex x> <hex dictionary>` ->
+the frame of `DictEnc.serializeFrameDictTables` (theorem Props.C08.dict_tables_roundtrip): the block loop starts from the dictionary's repeat
+offsets, its three sequence tables and its Huffman table, so `p` in the first block with sequences is set_repeat of the DICTIONARY's
+table and `t` in the first compressed block is treeless on the DICTIONARY's Huffman table.  `gen_case_dict` makes the parse first and then
+a formatted dictionary for it (tables covering the codes of the first blocks, a Huffman table covering the first literals; sometimes
+unrelated ones, sometimes a raw-content dictionary).  Comparisons: decoder model with the dictionary loaded by the loader model
+(rt=ok), the REAL ZSTD_decompress_usingDict (harness `dec <cap> <hex> <dict-hex>`) on the model's frame regenerates x, the
+dictionary's tables satisfy the table hypothesis of the theorem (dtab=true); the run must reach both kinds of repetition; negative
+case: set_repeat in the first block with a raw-content dictionary is refused by both.
+
 Blocks spec (see lean/Driver/BlockEnc.lean): blocks separated by `;`:  r<n> | e<n> | c<litmode>:<LL OF ML modes>:<ll:ml:off,...>:<tail>,
 modes = three letters out of b r p, or three descriptors `b` | `r` | `p` | `f<tableLog>,<c0>,<c1>,...` separated by `/`.
 
@@ -28,10 +38,11 @@ single-segment form, so windowSize = len(x): a compressed block larger than the 
 the model alike (srcSize_wrong), exactly like ZSTD_compressBlock_internal never emits one (it falls back to a raw block).
 `body_bound` below is an upper bound of the body size; blocks whose bound exceeds len(x) are emitted raw instead.
 """
-import os, sys, bisect
+import os, sys, bisect, heapq
 sys.path.insert(0, os.path.dirname(os.path.abspath(__file__)))
 import build, zv
 import frames
+import dictgen
 
 BLOCK_MAX = 131072
 
@@ -411,11 +422,15 @@ def table_syms(lm, lits, huf_syms):
     return huf_syms
 
 
-def assign_tables(rng, x, tentative, limit):
+def assign_tables(rng, x, tentative, limit, rep0=REP_START, prev0=None, huf0=None):
     """second pass over the tentative blocks (`("c", None, wish, seqs, tail)` for a compressed one): literal modes, table decisions along
-    the frame (repeat-offset history and previous tables advance on compressed blocks only), raw fallback for blocks over `limit`"""
-    blocks, pos, rep, prev, gap = [], 0, REP_START, None, 0
-    huf_syms = None                                                  # see choose_modes; advances on compressed blocks only
+    the frame (repeat-offset history and previous tables advance on compressed blocks only), raw fallback for blocks over `limit`.
+    rep0 / prev0 / huf0 = the state the block loop starts from: `repStartValue` and no tables, or what a formatted DICTIONARY installs
+    (its three repeat offsets, its three sequence tables as resolved `("f", log, norm)` decisions in the order LL, OF, ML, the set of
+    symbols its Huffman table has codes for): `p` in the first block with sequences then stands for the dictionary's table"""
+    blocks, pos, rep, prev, gap = [], 0, tuple(rep0), prev0, 0
+    huf_syms = huf0                                                  # see choose_modes; advances on compressed blocks only
+    dict_tab = [prev0 is not None] * 3                               # per type: the running table is still the dictionary's
     for i, b in enumerate(tentative):
         if b[0] != "c":
             blocks.append(b)
@@ -452,6 +467,11 @@ def assign_tables(rng, x, tentative, limit):
                 gap += 1
                 continue
         note_tables(descs, resolved, gap)
+        for t in range(3):
+            if descs[t] == "p" and dict_tab[t]:
+                STATS["p->dict"] = STATS.get("p->dict", 0) + 1
+            elif descs[t] != "p":
+                dict_tab[t] = False
         blocks.append(("c", lm, descs, seqs, tail))
         STATS["lit:" + lm] = STATS.get("lit:" + lm, 0) + 1
         huf_syms = table_syms(lm, lits, huf_syms)
@@ -459,7 +479,8 @@ def assign_tables(rng, x, tentative, limit):
     return blocks
 
 
-def gen_case(rng):
+def gen_tentative(rng):
+    """an input, frame parameters and a tentative tiling (parses chosen, entropy decisions still open)"""
     x = gen_x(rng)
     n = len(x)
     lo = max(10, (n - 1).bit_length())
@@ -486,9 +507,106 @@ def gen_case(rng):
             tentative.append(("e", e - s) if const else ("r", e - s))
             continue
         tentative.append(("c", None, None, seqs, tail))
+    return x, wl, ck, tentative
+
+
+def gen_case(rng):
+    x, wl, ck, tentative = gen_tentative(rng)
+    n = len(x)
     blocks = assign_tables(rng, x, tentative, min(n, 1 << wl, BLOCK_MAX))  # a block over the decoder's block size limit is emitted raw
     check_parse(x, blocks)
     return "cframe %d %d %s %s" % (wl, ck, spec_of(blocks), frames.hx(x)), x
+
+
+# ---------------------------------------------------------------------------------------------------------- dictionaries
+
+def dict_huf(rng, lits):
+    """the Huffman part of a dictionary, made for the literals `lits` (of the first compressed block of a frame): a direct (4-bit) weight
+    header whose table has a code for every byte of lits when they are all <= 128 (the direct form describes symbols 0..128), plus some
+    random symbols -> (header bytes, set of symbols with a code).  Code lengths: the textbook merge on counts (or the balanced code when
+    that is deeper than 11); a full binary tree, so HUF_readStats accepts the weights (Kraft equality, even number of weight-1 symbols)."""
+    syms = set(lits) if lits and max(lits) <= 128 else set()
+    if rng.random() < 0.15:
+        syms = set()                                                 # nothing to do with the literals
+    syms |= set(rng.sample(range(129), rng.choice((0, 1, 3, 10, 40))))
+    while len(syms) < 2:
+        syms.add(rng.randrange(129))
+    cnt = {s_: 1 + bytes(lits).count(s_) for s_ in syms}
+    heap = [(c, s_, (s_,)) for s_, c in sorted(cnt.items())]
+    heapq.heapify(heap)
+    depth = dict.fromkeys(syms, 0)
+    while len(heap) > 1:
+        a, b = heapq.heappop(heap), heapq.heappop(heap)
+        for s_ in a[2] + b[2]:
+            depth[s_] += 1
+        heapq.heappush(heap, (a[0] + b[0], min(a[1], b[1]), a[2] + b[2]))
+    if max(depth.values()) > 11:
+        n = len(syms)
+        L = (n - 1).bit_length()
+        order = sorted(syms, key=lambda s_: (-cnt[s_], s_))
+        depth = {s_: (L - 1 if i < (1 << L) - n else L) for i, s_ in enumerate(order)}
+    L = max(depth.values())
+    m = max(syms)
+    w = [(L + 1 - depth[s_]) if s_ in syms else 0 for s_ in range(m + 1)]
+    ws = w[:-1]
+    total = sum((1 << v) >> 1 for v in ws)
+    rest = (1 << L) - total
+    assert total > 0 and total.bit_length() == L and rest == 1 << (w[-1] - 1) and 1 <= len(ws) <= 128, (w, L)
+    r1 = sum(1 for v in w if v == 1)
+    assert r1 >= 2 and r1 % 2 == 0
+    hdr = bytearray([127 + len(ws)])
+    for i in range(0, len(ws), 2):
+        hdr.append((ws[i] << 4) | (ws[i + 1] if i + 1 < len(ws) else 0))
+    return bytes(hdr), syms
+
+
+def gen_case_dict(rng):
+    """a frame written WITH A DICTIONARY whose entropy tables are on offer (driver op `cframed`): the parse first, then a dictionary made
+    for it - the three described tables cover the codes of the first block(s) with sequences (mostly; sometimes they have nothing to do
+    with them, then `p` is not chosen), the Huffman table the literals of the first compressed block - so that the first blocks can
+    repeat the dictionary's tables (`p`) and be treeless on its Huffman table (`t`).  Sometimes a raw-content dictionary: no tables."""
+    x, wl, ck, tentative = gen_tentative(rng)
+    n = len(x)
+    content = b"".join(rng.choice(PHRASES) for _ in range(rng.choice((1, 2, 5, 40)))) + bytes(rng.getrandbits(8) for _ in range(rng.choice((0, 3, 9))))
+    content = content + b"\x00" * max(0, 8 - len(content))
+    if rng.random() < 0.08:                                          # raw content (no magic): start history {1, 4, 8}, no tables
+        blocks = assign_tables(rng, x, tentative, min(n, 1 << wl, BLOCK_MAX))
+        check_parse(x, blocks)
+        STATS["dict:raw"] = STATS.get("dict:raw", 0) + 1
+        return "cframed %d %d %s %s %s" % (wl, ck, spec_of(blocks), frames.hx(x), frames.hx(content)), x, content
+    m = len(content)
+    reps = [rng.choice((1, 4, 8, m, max(1, m // 2), rng.randint(1, m))) for _ in range(3)]
+    rep, codes, first_lits, pos, seen = tuple(reps), [], None, 0, 0
+    for b in tentative:
+        if b[0] != "c":
+            pos += b[1]
+            continue
+        lits, end = literals_of(x, pos, b[3], b[4])
+        if first_lits is None:
+            first_lits = lits
+        if b[3] and seen < rng.choice((1, 1, 2)):
+            cs, rep = block_codes(b[3], rep)
+            codes += cs
+            seen += 1
+        pos = end
+    tabs = []
+    for t in range(3):
+        cs = [c[t] for c in codes]
+        if not cs or rng.random() < 0.12:
+            cs = rng.sample(range(TYPES[t][0] + 1), rng.randint(1, 8))
+        tabs.append(fse_table(rng, cs, t))
+    hdr, syms = dict_huf(rng, first_lits or b"")
+    did = rng.randint(32768, (1 << 31) - 1)
+    d = bytearray(dictgen.MAGIC.to_bytes(4, "little")) + did.to_bytes(4, "little") + hdr
+    for t in (1, 2, 0):                                              # the entropy section lists offset codes, match lengths, literal lengths
+        d += dictgen.write_ncount(tabs[t][2], tabs[t][1])
+    for r in reps:
+        d += r.to_bytes(4, "little")
+    d += content
+    blocks = assign_tables(rng, x, tentative, min(n, 1 << wl, BLOCK_MAX), rep0=reps, prev0=tabs, huf0=syms)
+    check_parse(x, blocks)
+    STATS["dict:full"] = STATS.get("dict:full", 0) + 1
+    return "cframed %d %d %s %s %s" % (wl, ck, spec_of(blocks), frames.hx(x), bytes(d).hex()), x, bytes(d)
 
 
 def expand(prefix, seqs_with_lits, tail=b""):
@@ -676,6 +794,139 @@ def run_negative(ctx, exe):
     return len(ops), bad
 
 
+CORR_DICT = "ZSTD_decompress_usingDict(DictEnc.serializeFrameDictTables d D a blocks x, d) = x"
+
+
+def fixed_cases_dict():
+    """a fixed dictionary (LL / OF / ML tables over a few codes, Huffman table for the letters a..h) and a two-block frame: block 1 repeats
+    all three DICTIONARY tables and has treeless literals on the DICTIONARY's Huffman table, block 2 repeats what block 1 left (still the
+    dictionary's tables).  The first match uses the dictionary's first repeat offset (5).  Dictionary and block 1 are the non-vacuity
+    example of lean/ZstdVerif/Lemmas/DictTablesRT.lean (`demoDict`, `demoBlocks`), which pins the bytes of the one-block frame."""
+    lln = [16, 8, 4, 2, 1, 1]                                        # LL codes 0..5
+    ofn = [8, 8, 4, 4, 4, 2, 1, 1]                                   # OF codes 0..7
+    mln = [16, 4, 4, 2, 2, 2, 1, 1]                                  # ML codes 0..7 (match lengths 3..10)
+    ws = [0] * 97 + [3, 3, 2, 2, 1, 1, 1]                            # symbols 97..103 explicit, 104 ('h') implied weight 1; depth 4
+    hdr = bytearray([127 + len(ws)])
+    for i in range(0, len(ws), 2):
+        hdr.append((ws[i] << 4) | (ws[i + 1] if i + 1 < len(ws) else 0))
+    content = b"hgfedcba-0123456789-abcdefgh"
+    d = bytearray(dictgen.MAGIC.to_bytes(4, "little")) + (77777).to_bytes(4, "little") + hdr
+    d += dictgen.write_ncount(ofn, 5) + dictgen.write_ncount(mln, 5) + dictgen.write_ncount(lln, 5)
+    for r in (5, 9, 2):
+        d += r.to_bytes(4, "little")
+    d += content
+    lit1 = b"abacabadabaeabafabagabahaabbaaccaabaabacaabaa"
+    x1, s1 = expand(b"", [(lit1[:5], 4, 5), (lit1[5:9], 5, 3), (lit1[9:12], 3, 9)], lit1[12:])
+    lit2 = b"aabbaacaabaadaabaaeaabaafaabaagaabaahaabaabaa"
+    x2, s2 = expand(x1, [(lit2[:4], 6, 7), (lit2[4:6], 4, 2)], lit2[6:])
+    blocks = [("c", "t", "ppp", s1, len(lit1) - 12), ("c", "t", "ppp", s2, len(lit2) - 6)]
+    ln = "cframed 10 1 %s %s %s" % (spec_of(blocks), frames.hx(x2), bytes(d).hex())
+    EXPECT_LIT[ln] = "tt"
+    return [(ln, x2, bytes(d))]
+
+
+def negative_cases_dict():
+    """set_repeat in the first block with a RAW-CONTENT dictionary: there is no table to repeat (ZSTD_decompress_insertDictionary leaves
+    fseEntropy = 0); the decoder model and the real decoder must both refuse the frame"""
+    x = b"ab" * 50
+    return [("cframed 10 0 cr:ppp:2:98:2:0 %s %s" % (frames.hx(x), frames.hx(b"raw content dictionary")), x, b"raw content dictionary")]
+
+
+def run_dict(ctx, exe=None):
+    """frames written with a dictionary whose tables are on offer (theorem Props.C08.dict_tables_roundtrip): the decoder model, with the
+    dictionary loaded by the loader model, and the REAL ZSTD_decompress_usingDict regenerate the input from the model's frame"""
+    rng = ctx.rng
+    exe = exe or frames.harness()
+    n = 150 if ctx.quick() else 800
+    before = dict(STATS)
+    ops = [gen_case_dict(rng) for _ in range(n)] + fixed_cases_dict()
+    neg = negative_cases_dict()
+    lines = [o[0] for o in ops + neg]
+    rc, out, err = zv.run([zv.driver_exe(), "blockenc"], "\n".join(lines) + "\n", timeout=1800)
+    m = out.split("\n")
+    if m and m[-1] == "":
+        m = m[:-1]
+    if rc != 0 or len(m) != len(lines):
+        ctx.violation("zvdriver blockenc did not complete on the dictionary frames (rc %s, %d / %d lines): %s" % (rc, len(m), len(lines), err[-300:]),
+                      dict(kind="tie", op="", c="", model=str(rc)), no_input=True)
+        return dict(evaluations=len(lines), mismatches=1)
+    bad = first_p = first_t = nfull = 0
+    declines, who = [], []
+    for (ln, x, d), a in zip(ops, m):
+        parts = a.split(" ")
+        if len(parts) != 8 or parts[1] != "rt=ok" or not parts[5].startswith("lit=") or not parts[6].startswith("dict="):
+            bad += 1
+            if bad <= 8:
+                ctx.violation("decoder model (dictionary loaded by the loader model) does not regenerate the input from the dictionary frame of the block writer model: %s (%s)"
+                              % (a[-100:], ln[:80]), dict(kind="tie", correspondence=CORR_DICT, op=ln, c="", model=a))
+            if len(parts) != 8:
+                continue
+        spec = [t for t in ln.split(" ")[3].split(";") if t.startswith("c")]
+        if parts[2] != "fse=%d" % sum(t.split(":")[1].count("f") for t in spec) or parts[3] != "spreadOK=true" or parts[4] != "spreadEncEqDec=true" \
+                or parts[7] != "dtab=true" or parts[6] != ("dict=full" if d[:4] == dictgen.MAGIC.to_bytes(4, "little") else "dict=raw"):
+            bad += 1
+            if bad <= 8:
+                ctx.violation("block writer model, dictionary frame: a table (of the frame or of the dictionary) misses a side condition of the round-trip theorems, or the dictionary kind differs: %s (%s)"
+                              % (" ".join(parts[2:]), ln[:80]), dict(kind="tie", correspondence=CORR_DICT, op=ln, c="", model=a[-100:]))
+        written = parts[5][4:]
+        if ln in EXPECT_LIT and written != EXPECT_LIT[ln]:
+            bad += 1
+            ctx.violation("block writer model, dictionary frame: literals sections written %s, the fixed case was built for %s" % (written, EXPECT_LIT[ln]),
+                          dict(kind="tie", correspondence=CORR_DICT, op=ln, c="", model=a[-100:]))
+        nfull += parts[6] == "dict=full"
+        first_t += written[:1] == "t"                                # the first compressed block is treeless: on the DICTIONARY's Huffman table
+        seqblocks = [t for t in spec if t.split(":")[2]]
+        first_p += bool(seqblocks) and parts[6] == "dict=full" and "p" in seqblocks[0].split(":")[1].replace("/", "")[:1] + "".join(
+            q[:1] for q in seqblocks[0].split(":")[1].split("/"))
+        declines.append("dec %d %s %s" % (len(x), parts[0], frames.hx(d)))
+        declines.append("xxh %s" % frames.hx(x))
+        who.append((ln, x, a))
+    for (ln, x, d), a in zip(neg, m[len(ops):]):
+        declines.append("dec %d %s %s" % (len(x), a.split(" ")[0], frames.hx(d)))
+    rc, res, err = frames.run_lines(exe, declines, timeout=1800)
+    if rc != 0 or len(res) != len(declines):
+        ctx.violation("zvh_dec pass on the dictionary frames did not complete (rc %s, %d / %d lines): %s" % (rc, len(res), len(declines), err[-300:]),
+                      dict(kind="tie", op="", c=str(rc), model=""), no_input=True)
+        return dict(evaluations=len(lines) + len(declines) // 2, mismatches=bad + 1)
+    for i, (ln, x, a) in enumerate(who):
+        got, want = res[2 * i], res[2 * i + 1]
+        if got != want or want != "ok %d %s" % (len(x), want.split(" ")[-1]):
+            bad += 1
+            if bad <= 8:
+                ctx.violation("real ZSTD_decompress_usingDict applied to the dictionary frame written by the block writer MODEL does not regenerate the input: %s (expected %s) on %s"
+                              % (got, want, ln[:80]), dict(kind="tie", correspondence=CORR_DICT, op=ln, c=got, model=a))
+    for j, ((ln, x, d), a) in enumerate(zip(neg, m[len(ops):])):
+        got = res[2 * len(who) + j]
+        if " rt=FAIL:corruption " not in a or got != "err corruption":
+            bad += 1
+            ctx.violation("set_repeat in the first block with a raw-content dictionary: decoder model says %s, real decoder says %s (both must refuse: corruption)"
+                          % (" ".join(a.split(" ")[1:2]), got), dict(kind="tie", correspondence=CORR_DICT, op=ln, c=got, model=a[-100:]))
+    pd = STATS.get("p->dict", 0) - before.get("p->dict", 0)
+    if pd < 40 or first_t < 15:
+        bad += 1
+        ctx.violation("dictionary block writer tie: only %d table decisions repeat a DICTIONARY table and %d frames start with treeless literals on the dictionary's Huffman table in %d frames (the generator no longer reaches them)"
+                      % (pd, first_t, len(ops)), dict(kind="tie", op="", c="", model=""), no_input=True)
+    return dict(evaluations=2 * len(ops) + len(neg), mismatches=bad, frames=len(ops), formatted_dictionaries=nfull, negative_cases=len(neg),
+                dictionary_table_repeats=pd, frames_whose_first_seq_block_repeats_a_dictionary_table=first_p,
+                frames_starting_treeless_on_the_dictionary_table=first_t)
+
+
+def replay_dict(ctx, data):
+    """one `cframed` line again: the model's frame, the decoder model's verdict, the real ZSTD_decompress_usingDict on that frame"""
+    op = data["op"]
+    f = op.split(" ")
+    x = bytes.fromhex(f[4]) if f[4] != "-" else b""
+    rc, out, err = zv.run([zv.driver_exe(), "blockenc"], op + "\n", timeout=600)
+    a = out.split("\n")[0] if out else ""
+    rc2, res, err2 = frames.run_lines(frames.harness(), ["dec %d %s %s" % (len(x), a.split(" ")[0], f[5]), "xxh %s" % frames.hx(x)])
+    neg = ":ppp:" in op and not f[5].startswith("37a430ec")
+    if neg:
+        bad = " rt=FAIL:corruption " not in a or res[:1] != ["err corruption"]
+    else:
+        bad = " rt=ok " not in a or " dtab=true" not in a or len(res) != 2 or res[0] != res[1]
+    return dict(violates=bad, result=[a[-200:]] + [r[:200] for r in res])
+
+
 def run(ctx):
     rng = ctx.rng
     exe = frames.harness()
@@ -742,7 +993,10 @@ def run(ctx):
                       % (STATS.get("written:t", 0), len(lines)), dict(kind="tie", op="", c="", model=""), no_input=True)
     nneg, negbad = run_negative(ctx, exe)
     bad += negbad
-    return dict(evaluations=len(lines) * 2 + nneg, mismatches=bad, negative_cases=nneg, frames=len(lines), fse_tables_checked=nfse, table_decisions=dict(sorted(STATS.items())))
+    rd = run_dict(ctx, exe)                                          # frames whose first blocks repeat a DICTIONARY's tables (op `cframed`)
+    bad += rd.get("mismatches", 0)
+    return dict(evaluations=len(lines) * 2 + nneg + rd.get("evaluations", 0), mismatches=bad, negative_cases=nneg, frames=len(lines), fse_tables_checked=nfse,
+                table_decisions=dict(sorted(STATS.items())), dictionary_frames=rd)
 
 
 if __name__ == "__main__":
